@@ -124,6 +124,8 @@ def gen_dir(seed, tier, focus):
     if focus == "C21":
         ops.append(["traverse", ch.randrange(W, "troot", 3), ch.pick(W, "tkind", ["manifest", "stats", "check"])])
         ops.append(["traverse", ch.randrange(W, "troot2", 3), ch.pick(W, "tkind2", ["manifest", "stats", "check"])])
+        if ch.chance("faults", "traverse-read-fault", 0.35):
+            ops.append(["traverse", ch.randrange(W, "troot3", 3), ch.pick(W, "tkind3", ["manifest", "stats", "check"]), ch.randint("faults", "traverse-fault-nth", 1, 9)])
     return {"engine": "dirsim", "focus": focus, "seed": seed, "cfg": cfg, "ops": ops, "faults": []}
 
 
@@ -726,10 +728,10 @@ def exec_dir(case):
         # ---- C21 deep traversal
         if focus == "C21" and not viol:
             for op in [o for o in case["ops"] if o[0] == "traverse"]:
-                _, ridx, tkind = op
+                _, ridx, tkind = op[:3]
                 if ridx >= len(W.dirs):
                     continue
-                check_traverse(W, ridx, tkind, drive, bad, probe)
+                check_traverse(W, ridx, tkind, drive, bad, probe, op[3] if len(op) > 3 else None)
         return finish(g, viol, probes, case, focus)
     finally:
         g.close()
@@ -812,7 +814,13 @@ def verify_key(cap):
         return None
 
 
-def check_traverse(W, ridx, tkind, drive, bad, probe):
+def check_traverse(W, ridx, tkind, drive, bad, probe, fault=None):
+    if fault:
+        # every server fails one read (the n-th this client sends it) while the walk is under way: the walk may fail as a
+        # whole, but a result that is reported as a success still has to cover everything
+        for s_ in W.g.servers:
+            W.g.net.add_fault({"kind": "error", "callee": s_.name, "caller": W.w.sim_name, "method": "slot_readv", "nth": fault, "secs": 1.0})
+        probe("traverse-with-read-fault")
     root = W.w.create_node_from_uri(W.dirs[ridx]["rw"])
     if tkind == "manifest":
         mon = root.build_manifest()
@@ -821,6 +829,12 @@ def check_traverse(W, ridx, tkind, drive, bad, probe):
     else:
         mon = root.start_deep_check()
     st, res = drive(mon.when_done(), "deep traversal (%s)" % tkind)
+    if fault:
+        for r_ in W.g.net.faults:
+            r_["done"] = True
+    if st != "ok" and fault:
+        probe("traverse-failed-under-fault")
+        return
     if st != "ok":
         if st == "err":
             bad("C21", "traverse-failed", "deep traversal (%s) failed: %s" % (tkind, res.getTraceback()[-600:]), sig="C21.traverse-failed." + err_name(res))
